@@ -108,7 +108,7 @@ def ffinal : AMap Nat → List FOp → AMap Nat
 /-! ### policy mode -/
 
 structure RCfg where
-  attempts : Int          -- `Attempts` (not validated anywhere: may be ≤ 0)
+  attempts : Int          -- `Attempts` (not validated anywhere: may be ≤ 0, then no state is ever created)
   cooldown : Nat          -- `InitialCooldownSeconds`
   mult     : Nat          -- `CooldownMultiplier`
   ranges   : List (Int × Int)
@@ -152,7 +152,10 @@ def presp (cfg : RCfg) (s : PState) (seq : Key) (first : Bool) (status : Int) : 
     let st : Option (Int × Nat) :=
       match cacheGet s seq with
       | some e => some (e.left, e.next)
-      | none => if first then some (cfg.attempts, cfg.cooldown) else none
+      | none =>
+        if !first then none
+        else if cfg.attempts < 1 then none   -- no retry is allowed by configuration
+        else some (cfg.attempts, cfg.cooldown)
     match st with
     | none => (s, .noop)
     | some (left, next) =>
